@@ -893,6 +893,41 @@ func (in *Interp) execLoop(st *State, s ast.Stmt) []*State {
 	// range over a known list (variadic argument): unroll
 	if rs, ok := s.(*ast.RangeStmt); ok {
 		for _, vs := range in.eval(st, rs.X) {
+			if vs.v.K == vConst && vs.v.C.Kind() == constant.String && in.h.Slice != nil {
+				// a constant string: its runes, one iteration each
+				str := constant.StringVal(vs.v.C)
+				sts := []*State{vs.st}
+				for i, r := range str {
+					var next []*State
+					for _, st := range sts {
+						if st.Term != tNone {
+							next = append(next, st)
+							continue
+						}
+						if rs.Key != nil {
+							in.store(st, rs.Key, token.ASSIGN, constV(constant.MakeInt64(int64(i))))
+						}
+						if rs.Value != nil {
+							rv := constV(constant.MakeInt64(int64(r)))
+							rv.T = types.Typ[types.Rune]
+							in.store(st, rs.Value, token.ASSIGN, rv)
+						}
+						for _, x := range in.exec(st, rs.Body) {
+							if x.Term == tContinue && x.Label == "" {
+								x.Term = tNone
+							}
+							next = append(next, x)
+						}
+					}
+					sts = next
+				}
+				for _, st := range sts {
+					if st.Term == tBreak && st.Label == "" {
+						st.Term = tNone
+					}
+				}
+				return sts
+			}
 			if vs.v.K == vList {
 				sts := []*State{vs.st}
 				for i, el := range vs.v.Tup {
@@ -928,12 +963,66 @@ func (in *Interp) execLoop(st *State, s ast.Stmt) []*State {
 			break
 		}
 	}
+	if fs, ok := s.(*ast.ForStmt); ok && in.h.Slice != nil && fs.Init != nil && fs.Cond != nil && fs.Post != nil {
+		if out, ok := in.unrollCounted(st, fs); ok {
+			return out
+		}
+	}
 	if in.h.Loop != nil {
 		if out, ok := in.h.Loop(in, st, s, body); ok {
 			return out
 		}
 	}
 	return in.genericLoop(st, s, body)
+}
+
+// unrollCounted runs a counted loop whose condition is decided by constants at every iteration (for j := 1; j <
+// len("-dt"); j++): each iteration is interpreted in turn. It gives up (ok=false) when the condition is not a
+// constant at some point or the loop runs longer than a small bound.
+func (in *Interp) unrollCounted(st *State, fs *ast.ForStmt) ([]*State, bool) {
+	start := st.clone()
+	sts := in.exec(start, fs.Init)
+	var out []*State
+	for iter := 0; iter < 64; iter++ {
+		var live []*State
+		for _, s := range sts {
+			if s.Term != tNone {
+				out = append(out, s)
+				continue
+			}
+			vs := in.eval(s, fs.Cond)
+			if len(vs) != 1 || vs[0].v.K != vConst || vs[0].v.C.Kind() != constant.Bool {
+				return nil, false
+			}
+			if !constant.BoolVal(vs[0].v.C) {
+				out = append(out, vs[0].st)
+				continue
+			}
+			live = append(live, vs[0].st)
+		}
+		if len(live) == 0 {
+			return out, true
+		}
+		var next []*State
+		for _, s := range live {
+			for _, r := range in.exec(s, fs.Body) {
+				switch {
+				case r.Term == tBreak && r.Label == "":
+					r.Term = tNone
+					out = append(out, r)
+				case r.Term == tContinue && r.Label == "":
+					r.Term = tNone
+					next = append(next, in.exec(r, fs.Post)...)
+				case r.Term != tNone:
+					out = append(out, r)
+				default:
+					next = append(next, in.exec(r, fs.Post)...)
+				}
+			}
+		}
+		sts = next
+	}
+	return nil, false
 }
 
 // genericLoop: variables assigned in the loop are forgotten; one iteration
@@ -1105,6 +1194,42 @@ func (in *Interp) eval(st *State, e ast.Expr) []valState {
 				case *types.Array:
 					elem = u.Elem()
 				}
+				if elem != nil && in.h.Slice != nil {
+					if _, isStruct := elem.Underlying().(*types.Struct); isStruct {
+						if lit := in.c.tableLiteral(pv); lit != nil {
+							list := Value{K: vList}
+							okAll := true
+							for _, el := range lit.Elts {
+								cl, isCL := el.(*ast.CompositeLit)
+								if !isCL {
+									okAll = false
+									break
+								}
+								stt := elem.Underlying().(*types.Struct)
+								sv := Value{K: vStruct, T: elem, Fields: map[string]Value{}}
+								for i, fe := range cl.Elts {
+									name := ""
+									val := fe
+									if kv, isKV := fe.(*ast.KeyValueExpr); isKV {
+										if id, isID := kv.Key.(*ast.Ident); isID {
+											name = id.Name
+										}
+										val = kv.Value
+									} else if i < stt.NumFields() {
+										name = stt.Field(i).Name()
+									}
+									if name != "" {
+										sv.Fields[name] = in.literalValue(val)
+									}
+								}
+								list.Tup = append(list.Tup, sv)
+							}
+							if okAll && len(list.Tup) > 0 {
+								return one(st, list)
+							}
+						}
+					}
+				}
 				if elem != nil {
 					if _, isFn := elem.Underlying().(*types.Signature); isFn {
 						if lit := in.c.tableLiteral(pv); lit != nil {
@@ -1238,6 +1363,12 @@ func (in *Interp) eval(st *State, e ast.Expr) []valState {
 				if in.h.Load != nil {
 					if v, ok := in.h.Load(in, i.st, e); ok {
 						out = append(out, valState{i.st, v})
+						continue
+					}
+				}
+				if x.v.K == vList && i.v.K == vConst && i.v.C.Kind() == constant.Int {
+					if k, ok := constant.Int64Val(i.v.C); ok && k >= 0 && int(k) < len(x.v.Tup) {
+						out = append(out, valState{i.st, x.v.Tup[k]})
 						continue
 					}
 				}
@@ -1518,11 +1649,17 @@ func (in *Interp) arith(l Value, op token.Token, r Value) Value {
 	if !ok1 || !ok2 {
 		return unknownV()
 	}
+	fold := func(l *Lin) Value {
+		if k, ok := l.isConst(); ok && in.h.Slice != nil {
+			return constV(constant.MakeInt64(k)) // constants stay constants (domains that evaluate string operations need them)
+		}
+		return linV(l)
+	}
 	switch op {
 	case token.ADD:
-		return linV(ll.add(rl))
+		return fold(ll.add(rl))
 	case token.SUB:
-		return linV(ll.sub(rl))
+		return fold(ll.sub(rl))
 	case token.MUL:
 		if c, ok := ll.isConst(); ok {
 			return linV(rl.scale(c))
@@ -1579,6 +1716,12 @@ func (in *Interp) evalCall(st *State, call *ast.CallExpr) []valState {
 					v = Value{K: vUnknown}
 				}
 			}
+			if b, isBasic := tv.Type.Underlying().(*types.Basic); isBasic && b.Info()&types.IsString != 0 && v.K == vConst && v.C.Kind() == constant.Int {
+				// string(r) of a constant rune
+				if r, ok := constant.Int64Val(v.C); ok {
+					v = constV(constant.MakeString(string(rune(r))))
+				}
+			}
 			if v.T == nil || v.K != vTag {
 				v.T = tv.Type
 			}
@@ -1595,6 +1738,13 @@ func (in *Interp) evalCall(st *State, call *ast.CallExpr) []valState {
 		callee = nil
 		if id, ok := stripParens(call.Fun).(*ast.Ident); ok {
 			if v, ok := st.Env[in.c.objOf(id)]; ok && v.K == vFunc {
+				fnVal = &v
+			}
+		} else if sel, isSel := stripParens(call.Fun).(*ast.SelectorExpr); isSel && in.h.CallValue != nil {
+			// x.f(...) with f a field holding a function
+			if fvs := in.eval(st, sel); len(fvs) == 1 && fvs[0].v.K == vFunc {
+				st = fvs[0].st
+				v := fvs[0].v
 				fnVal = &v
 			}
 		} else if _, isCall := stripParens(call.Fun).(*ast.CallExpr); isCall && in.h.CallValue != nil {
@@ -1827,8 +1977,13 @@ func (in *Interp) tableLookup(x ast.Expr, key Value) (Value, bool) {
 		return in.literalValue(val), true
 	}
 	if isMap {
-		// a miss yields the zero value
-		return in.zeroOf(in.c.typeOf(lit).Underlying().(*types.Map).Elem()), true
+		// a miss yields the zero value (named as a miss when that is a nil function, pointer or interface)
+		elem := in.c.typeOf(lit).Underlying().(*types.Map).Elem()
+		switch elem.Underlying().(type) {
+		case *types.Signature, *types.Pointer, *types.Interface:
+			return tagV("miss", nil), true
+		}
+		return in.zeroOf(elem), true
 	}
 	if arr, ok := in.c.typeOf(lit).Underlying().(*types.Array); ok && key.C.Kind() == constant.Int {
 		if k, ok := constant.Int64Val(key.C); ok && k >= 0 && k < arr.Len() {
@@ -1858,6 +2013,8 @@ func (in *Interp) literalValue(e ast.Expr) Value {
 		if f, ok := in.c.objOf(x).(*types.Func); ok {
 			return Value{K: vFunc, FnObj: f}
 		}
+	case *ast.FuncLit:
+		return Value{K: vFunc, Lit: x}
 	case *ast.SelectorExpr:
 		// a method expression (*T).m or a qualified function
 		if f, ok := in.c.objOf(x).(*types.Func); ok {
